@@ -416,9 +416,24 @@ func (cs *Contracts) parseFile(path, src string) error {
 			if cur == nil {
 				return fmt.Errorf("%s:%d: loop outside func block", path, ln)
 			}
+			if j := strings.Index(rest, ": decreases "); j >= 0 && !strings.Contains(rest[:j], ": invariant ") {
+				key := strings.TrimSpace(rest[:j])
+				cl, err := parseClause(rest[j+len(": decreases "):])
+				if err != nil {
+					return fmt.Errorf("%s:%d: %v", path, ln, err)
+				}
+				if cur.Decreases == nil {
+					cur.Decreases = map[string][]*Clause{}
+				}
+				cur.Decreases[key] = append(cur.Decreases[key], cl)
+				if _, ok := cur.Loops[key]; !ok {
+					cur.Loops[key] = nil // the key must match a loop
+				}
+				break
+			}
 			i := strings.Index(rest, ": invariant ")
 			if i < 0 {
-				return fmt.Errorf("%s:%d: expected `loop <key>: invariant <expr>`", path, ln)
+				return fmt.Errorf("%s:%d: expected `loop <key>: invariant <expr>` or `loop <key>: decreases <expr>`", path, ln)
 			}
 			key := strings.TrimSpace(rest[:i])
 			cl, err := parseClause(rest[i+len(": invariant "):])
